@@ -67,10 +67,10 @@ try:
             # the demonstrations use the worktree's own build (target/debug/erg, runtime library under <wt>/.ergpath)
             prep = (f"cargo build --offline && mkdir -p {wt}/.ergpath && rsync -a --delete {wt}/crates/erg_compiler/lib {wt}/.ergpath/")
             sh(prep, cwd=wt, timeout=3600)
-            rcw, ow = sh(f"ERG_PATH={wt}/.ergpath sh {dd}/demo.sh {wt}", cwd=dd, timeout=3600)
+            rcw, ow = sh(f"ERG_PATH={wt}/.ergpath bash {dd}/demo.sh {wt}", cwd=dd, timeout=3600)
             sh(f"git -C {wt} checkout -- . && git -C {wt} clean -fdq -e target -e .ergpath")
             sh(prep, cwd=wt, timeout=3600)
-            rco, oo = sh(f"ERG_PATH={wt}/.ergpath sh {dd}/demo.sh {wt}", cwd=dd, timeout=3600)
+            rco, oo = sh(f"ERG_PATH={wt}/.ergpath bash {dd}/demo.sh {wt}", cwd=dd, timeout=3600)
             res[i].update({"demo_with_change_rc": rcw, "demo_with_change_tail": ow[-500:], "demo_without_change_rc": rco,
                            "demo_without_change_tail": oo[-300:], "demo_flips": rcw != 0 and rco == 0})
         else:
